@@ -113,7 +113,12 @@ def build(desc):
     for sd in desc["sections"]:
         sect = gtirb.Section(name=sd["name"], flags={FLAGS[c] for c in sd["flags"]} | {gtirb.Section.Flag.Loaded, gtirb.Section.Flag.Initialized})
         sect.module = m
-        m.aux_data["sectionProperties"].data[sect] = (1, 6 if "x" in sd["flags"] else 3)
+        if fmt == gtirb.Module.FileFormat.ELF:
+            # SHT_PROGBITS; SHF_ALLOC|SHF_EXECINSTR / SHF_WRITE|SHF_ALLOC
+            m.aux_data["sectionProperties"].data[sect] = (1, 6 if "x" in sd["flags"] else 3)
+        else:
+            # COFF: no type; CNT_CODE|MEM_EXECUTE|MEM_READ / CNT_INITIALIZED_DATA|MEM_READ|MEM_WRITE
+            m.aux_data["sectionProperties"].data[sect] = (0, 0x60000020 if "x" in sd["flags"] else 0xC0000040)
         model.sections[sd["name"]] = []
         model.section_order.append(sd["name"])
         for ud in sd["units"]:
